@@ -1,7 +1,7 @@
 """Generated constants of layer L7 "Async" (rpyc/core/async_.py, rpyc/core/protocol.py DEFAULT_CONFIG)
 -> lean/RpycModel/Gen/Async.lean.  Discovered by gen_consts.py through SECTIONS.
 
-Data only: the slots of `AsyncResult` (the model's `AR` structure plus the connection must account for every
+Data only (and one *measured* behaviour): the slots of `AsyncResult` (the model's `AR` structure plus the connection must account for every
 one of them: a new slot is new state the model does not have) and the default `sync_request_timeout`.
 Control flow (`__call__`, `wait`, the properties, `Timeout`) is modelled by hand and tied by the C15
 correspondence.
@@ -21,13 +21,45 @@ def gen_async():
         lean_t = "some (%d)" % int(t)
     else:
         raise Inexpressible("DEFAULT_CONFIG['sync_request_timeout'] is neither None nor a whole number of seconds: %r" % (t,))
+    all_run = measure_callbacks_all_run(async_)
     L = ["namespace Rpyc.Gen.Async", "",
          "/-- `AsyncResult.__slots__` -/",
          "def slots : List String := " + lean_list([lean_str(s) for s in slots], 8), "",
          "/-- `DEFAULT_CONFIG[\"sync_request_timeout\"]` (seconds; `none` = no timeout) -/",
          "def syncRequestTimeout : Option Int := " + lean_t, "",
+         "/-- measured on the live `AsyncResult.__call__` with the callbacks [raises, returns]: does the second callback",
+         "still run, is the list cleared, and is the first error re-raised afterwards (`true`) - or does the loop stop at",
+         "the raising callback with the list left as it is (`false`)? -/",
+         "def callbacksAllRun : Bool := " + ("true" if all_run else "false"), "",
          "end Rpyc.Gen.Async", ""]
     return "\n".join(L)
+
+
+def measure_callbacks_all_run(async_):
+    """run the real `__call__` once on a bare result with a raising callback followed by a plain one"""
+    res = async_.AsyncResult(None)
+    ran = []
+
+    def failing(r):
+        ran.append(1)
+        raise RuntimeError("measured")
+
+    def plain(r):
+        ran.append(2)
+    res.add_callback(failing)
+    res.add_callback(plain)
+    raised = False
+    try:
+        res(False, 0)
+    except RuntimeError:
+        raised = True
+    obs = (ran, len(res._callbacks), raised, bool(res._is_ready))
+    if obs == ([1, 2], 0, True, True):
+        return True
+    if obs == ([1], 2, True, True):
+        return False
+    raise Inexpressible("AsyncResult.__call__ with a raising callback behaves in a way the model has no branch for: "
+                        "ran %r, %d callbacks left, raised %r, ready %r" % obs)
 
 
 SECTIONS = [("Async.lean", gen_async)]
